@@ -51,6 +51,7 @@ type c02RLBehaviour struct {
 	id      int
 	c       c02RLCase
 	entered int32
+	waited  int64 // block kinds: ns between handler entry and ctx.Done, measured in the handler
 }
 
 var (
@@ -107,7 +108,9 @@ func (c02RLService) Deposit(ctx context.Context, req *mock.DepositRequest) (*moc
 	atomic.AddInt32(&b.entered, 1)
 	switch b.c.K {
 	case "block", "blockerr", "blockpanic":
+		t0 := time.Now()
 		<-ctx.Done()
+		atomic.StoreInt64(&b.waited, int64(time.Since(t0)))
 	}
 	switch b.c.K {
 	case "err", "blockerr":
@@ -137,7 +140,7 @@ func (r c02RLResult) String() string {
 }
 
 func c02RLCall(cl mock.DepositServiceClient, b *c02RLBehaviour) c02RLResult {
-	ctx, cancel := context.WithTimeout(context.Background(), 60*time.Second)
+	ctx, cancel := context.WithTimeout(context.Background(), 40*time.Second)
 	defer cancel()
 	t0 := time.Now()
 	resp, err := cl.Deposit(ctx, &mock.DepositRequest{Amount: float32(b.id)})
@@ -243,8 +246,8 @@ func c02RLRun(c c02RLCase) (v kit.Verdict) {
 	}()
 	stalled := func(r c02RLResult) bool {
 		// "returns at once" no longer describes a run in which the machine stood still for
-		// half the server timeout; a client that waited 30 s may have hit its own deadline
-		return (c.S == 0 && r.took >= T/2) || r.took >= 30*time.Second
+		// half the server timeout; a client that waited 20 s may have hit its own deadline (40 s)
+		return (c.S == 0 && r.took >= T/2) || r.took >= 20*time.Second
 	}
 	// two calls that must succeed: breaker padding, and proof that the server survived what came before
 	for i := 0; i < 2; i++ {
@@ -260,6 +263,10 @@ func c02RLRun(c c02RLCase) (v kit.Verdict) {
 	}
 	b := c02RLNew(c)
 	r := c02RLCall(cl, b)
+	if w := time.Duration(atomic.LoadInt64(&b.waited)); c.S == 2 && w >= 15*time.Second {
+		// measured inside the handler, right after two calls that were answered promptly
+		return v.Failf("rpc loopback server %d (timeout %v), %+v: the handler's context was done only %v after the handler started: the server timeout did not end the call; got %v", c.S, T, c, w.Round(time.Millisecond), r)
+	}
 	if stalled(r) {
 		cls["machine-stalled"] = true
 		v.Excluded = true
@@ -337,7 +344,7 @@ func c02RLGen(rt *rapid.T) c02RLCase {
 }
 
 func TestVerif_C02_rpc_loopback(t *testing.T) {
-	kit.Run(t, "C02", "rpc-loopback", kit.Opts{Quick: 24, Thorough: 960}, c02RLGen,
+	kit.Run(t, "C02", "rpc-loopback", kit.Opts{Quick: 40, Thorough: 960}, c02RLGen,
 		func(c c02RLCase) kit.Verdict { return c02RLRun(c) })
 	for i, err := range c02RLErr {
 		if err != nil {
